@@ -5,6 +5,7 @@ import (
 	"math"
 	"math/big"
 	"math/rand"
+	"time"
 
 	"verifharness/monitor"
 	"verifharness/oracle"
@@ -215,6 +216,34 @@ func genPod(r *rand.Rand, i int) *v1.Pod {
 		p.Status.Phase = v1.PodRunning
 		p.Spec.NodeName = fmt.Sprintf("n%d", r.Intn(4))
 	}
+	// status and metadata that the definition does not mention: every listed pod counts, whatever its phase,
+	// whether it is being deleted, whichever conditions, finalizers, priority or owner it has
+	if r.Intn(4) == 0 {
+		p.Status.Phase = []v1.PodPhase{v1.PodPending, v1.PodRunning, v1.PodUnknown, "", v1.PodSucceeded, v1.PodFailed}[r.Intn(6)]
+		if r.Intn(2) == 0 {
+			p.Spec.NodeName = fmt.Sprintf("n%d", r.Intn(4))
+		}
+	}
+	if r.Intn(5) == 0 {
+		t := metav1.NewTime(time.Unix(1700000000+int64(r.Intn(100000)), 0))
+		grace := int64(r.Intn(60))
+		p.DeletionTimestamp, p.DeletionGracePeriodSeconds = &t, &grace
+		if r.Intn(2) == 0 {
+			p.Finalizers = []string{"example.com/hold"}
+		}
+	}
+	if r.Intn(5) == 0 {
+		st := []v1.ConditionStatus{v1.ConditionTrue, v1.ConditionFalse, v1.ConditionUnknown}[r.Intn(3)]
+		p.Status.Conditions = append(p.Status.Conditions, v1.PodCondition{Type: v1.PodScheduled, Status: st})
+		if r.Intn(2) == 0 {
+			p.Status.Conditions = append(p.Status.Conditions, v1.PodCondition{Type: v1.PodReady, Status: v1.ConditionFalse})
+		}
+	}
+	if r.Intn(6) == 0 {
+		prio := int32(r.Intn(2000000) - 1000000)
+		p.Spec.Priority = &prio
+		p.OwnerReferences = []metav1.OwnerReference{{Kind: []string{"Job", "ReplicaSet", "StatefulSet"}[r.Intn(3)], Name: "o"}}
+	}
 	return p
 }
 
@@ -307,6 +336,12 @@ func runC13(tier string, seed int64, si, sn int, rep *monitor.Report, note func(
 			}
 			if p.Spec.Overhead != nil {
 				shape += "o"
+			}
+			if p.DeletionTimestamp != nil {
+				rep.Covered(P, "calc:pod-being-deleted:phase="+string(p.Status.Phase))
+			}
+			if p.Status.Phase != v1.PodRunning && p.Status.Phase != v1.PodPending {
+				rep.Covered(P, "calc:pod-phase="+string(p.Status.Phase))
 			}
 		}
 		wantC, wantM := oracle.PodsRequest(pods)
